@@ -11,3 +11,6 @@ type yieldState struct{}
 func installYield(seed uint64) *yieldState                        { return nil }
 func installYieldParked(sim *simkit.Sim, seed uint64) *yieldState { return nil }
 func (st *yieldState) stop() (fired, sites int)                   { return 0, 0 }
+func (st *yieldState) recursiveReadLocks() (n, metWriter int)     { return 0, 0 }
+
+func heldByGoroutine(id uint64) (n int, known bool) { return 0, false }
